@@ -30,6 +30,11 @@ def import_xfab():
     got = os.path.realpath(os.path.dirname(os.path.dirname(xfab.__file__)))
     if got != src:
         raise HarnessError("xfab imported from %s, expected %s" % (got, src))
+    # import every module the engines touch NOW: forked children (one per isolated run) then inherit them instead of
+    # each compiling the 13 000-line space-group library again (imports only -- no function of xfab is called here)
+    import importlib
+    for m in ("xfab.checks", "xfab.tools", "xfab.laue", "xfab.symmetry", "xfab.sglib", "xfab.sg", "xfab.parameters"):
+        importlib.import_module(m)
     return xfab
 
 
